@@ -782,18 +782,23 @@ func genPointer(t *rapid.T, doc interface{}, label string, avoidProtected bool) 
 		}
 		ptrs = keep
 	}
+	res := ""
 	switch rapid.IntRange(0, 9).Draw(t, label+"-kind") {
 	case 0:
 		base := rapid.SampledFrom(ptrs).Draw(t, label+"-base")
 		base = strings.TrimSuffix(base, "/-")
-		return base + "/" + rapid.SampledFrom(otherMemberNames).Draw(t, label+"-new")
+		res = base + "/" + rapid.SampledFrom(otherMemberNames).Draw(t, label+"-new")
 	case 1:
-		return "/" + rapid.SampledFrom(otherMemberNames).Draw(t, label+"-top")
+		res = "/" + rapid.SampledFrom(otherMemberNames).Draw(t, label+"-top")
 	case 2:
-		return rapid.SampledFrom([]string{"", "/", "/x/y/z", "/arr/5", "/arr/-1", "/arr/01", "/o~1p", "/a~0b", "nope", "/arr/1e0"}).Draw(t, label+"-junk")
+		res = rapid.SampledFrom([]string{"", "/", "/x/y/z", "/arr/5", "/arr/-1", "/arr/01", "/o~1p", "/a~0b", "nope", "/arr/1e0"}).Draw(t, label+"-junk")
 	default:
-		return rapid.SampledFrom(ptrs).Draw(t, label+"-existing")
+		res = rapid.SampledFrom(ptrs).Draw(t, label+"-existing")
 	}
+	if avoidProtected && touchesProtected(res) {
+		res = "/name"
+	}
+	return res
 }
 
 var ops6902 = []string{"copy", "move", "add", "remove", "replace", "test"}
